@@ -18,6 +18,10 @@ type Repo struct {
 	ReservationValid bool
 	Info             ref.SDRRepoInfo // static parts (version, free space, flags)
 	GetSDRCount      int             // number of Get SDR requests served (all outcomes)
+	// CountOverride, if set, is reported as the record count instead of
+	// len(Records) (lets a check serve generated repository info without
+	// touching the records another command serves).
+	CountOverride *uint16
 	// BeforeGetSDR, if set, runs before the k-th (1-based) Get SDR is answered.
 	BeforeGetSDR func(r *Repo, k int)
 }
@@ -130,6 +134,9 @@ func installDefaults(b *BMC) {
 	h[key(ref.NetFnStorage, ref.CmdSDRRepoInfo)] = func(b *BMC, rx *Rx) (byte, []byte) {
 		i := b.Data.Repo.Info
 		i.Count = uint16(len(b.Data.Repo.Records))
+		if b.Data.Repo.CountOverride != nil {
+			i.Count = *b.Data.Repo.CountOverride
+		}
 		i.AddTS, i.EraseTS = b.Data.Repo.AddTS, b.Data.Repo.EraseTS
 		return 0, i.Bytes()
 	}
